@@ -119,7 +119,7 @@ SOURCES_QUICK = ["1bpi.pdb", "designed", "bpti.pdb", "1vii.pdb", "designed", "2E
                  "designed", "4ZUO.pdb", "1ncw.pdb.gz", "designed", "1vii_sustiva_water.pdb", "frame0.h5", "designed",
                  "ala_ala_ala.pdb", "native.pdb", "designed", "1bpi.pdb", "2EQQ.pdb", "synthetic", "designed"]
 SOURCES_THOROUGH = SOURCES_QUICK + ["3nch.pdb.gz", "GG-tip4pew.pdb", "4ZUO.pdb", "1ncw.pdb.gz", "synthetic"]
-NCASES = {"quick": 480, "thorough": 8000}
+NCASES = {"quick": 960, "thorough": 8000}
 NOISES = [0.0, 0.0, 0.002, 0.005, 0.01, 0.02, 0.03, 0.05]
 BIG = 400  # residues
 
